@@ -246,7 +246,7 @@ Definition c08_step (s : ost) (o : op) (x : obs) : sv :=
         match spec_message h id a ls 0, x with
         | Some (mt, body), XEnc (Some n) out =>
             sv_of ((10 <=? n)%nat && (n <=? length out)%nat && list_eqb (sub out 8 (n - 9)) (mt :: body)) id
-        | Some (mt, body), XEnc None out => if fits_frame body then sv_of false id else sv_triv
+        | Some (mt, body), XEnc None out => sv_triv      (* refusing a message that fits is C16's business *)
         | Some (mt, body), _ => sv_triv
         | None, XEnc None out => sv_of (list_eqb out buf) id        (* other formats: refused *)
         | None, _ => sv_of false id
